@@ -69,6 +69,15 @@ CallRules(s, acc, k) ==
                  \cup (IF d.tag # "Invalid" /\ ~(d.tag = "NeedMore" /\ d.atBoundary) THEN {<<k, "D6-flush-point-not-on-a-block-and-byte-boundary">>} ELSE {})
                  \cup (IF d.tag # "Invalid" /\ ~LastIsEmptyStored(d) THEN {<<k, "D6-flush-point-not-marked-by-empty-stored-block">>} ELSE {})
       fullPoints == IF flushDone /\ c.flush = 2 /\ v6 = {} THEN Append(acc.fullPoints, <<Len(produced), consumed>>) ELSE acc.fullPoints
+      \* a FULL_FLUSH request that took all the input so far but ran out of output space stays pending: while every following call keeps
+      \* asking for FULL_FLUSH, the marker the library writes for that input position is a full-flush point like any other, even when the
+      \* call that completes it brings more input (midFull: input positions whose marker, if the stream has one, must cut the history)
+      askFull == pok /\ c.ret = 0 /\ c.flush = 2
+      fullSince == IF c.c > 0 THEN askFull ELSE acc.fullSince /\ askFull       \* every call since the last input was taken asked for FULL_FLUSH
+      fullReq == fullSince /\ c.eos = 0 /\ c.ai - c.c = 0 /\ c.ao - c.p = 0 /\ given = consumed
+      roomLeft == askFull /\ c.ao - c.p > 0
+      midFull == IF roomLeft THEN acc.midFull \cup acc.pendFull ELSE acc.midFull
+      pendFull == IF ~askFull \/ roomLeft THEN {} ELSE acc.pendFull \cup (IF fullReq THEN {consumed} ELSE {})
       \* D9 progress: a call that neither consumes nor produces although it has space and something to do
       idle == c.c = 0 /\ c.p = 0 /\ c.st = c.st0 /\ c.ao > 0 /\ (c.ai > 0 \/ c.eos = 1 \/ c.flush # 0) /\ c.st # "END" /\ c.ret = 0
              /\ ~(c.ai = 0 /\ c.eos = 0 /\ c.st = "NEW_HDR")       \* nothing pending: a flush request with no data and nothing buffered is a no-op
@@ -88,7 +97,7 @@ CallRules(s, acc, k) ==
       v11 == IF c.sh = 0 /\ c.st # "NEW_HDR" THEN {<<k, "D11-set_hufftables-accepted-while-a-block-is-open">>} ELSE {}
   IN [produced |-> produced, consumed |-> consumed, given |-> given, pending |-> c.ai - c.c, viol |-> acc.viol \cup v1 \cup v3 \cup v4 \cup v6 \cup v9 \cup v11,
       dec |-> IF flushDone /\ pd.ok /\ pd.d.tag = "NeedMore" THEN [kind |-> "state", st |-> pd.d.st, hend |-> pd.hend] ELSE acc.dec,
-      stall |-> stall, fullPoints |-> fullPoints, ended |-> acc.ended \/ c.st = "END", flushJudged |-> acc.flushJudged + (IF flushDone THEN 1 ELSE 0),
+      stall |-> stall, fullPoints |-> fullPoints, midFull |-> midFull, pendFull |-> pendFull, fullSince |-> fullSince, ended |-> acc.ended \/ c.st = "END", flushJudged |-> acc.flushJudged + (IF flushDone THEN 1 ELSE 0),
       eosSeen |-> acc.eosSeen \/ c.eos = 1, buffered |-> c.bv - c.bp, drift |-> acc.drift \cup m1, cov |-> cov]
 
 EndRules(s, acc) ==
@@ -128,6 +137,10 @@ EndRules(s, acc) ==
          v7 == UNION {{<<n, "D7-match-reaches-back-across-full-flush-point">>} : fp \in
                  {fp \in {acc.fullPoints[i] : i \in 1..Len(acc.fullPoints)} :
                     \E bi \in 1..Len(blocks) : blocks[bi].startBit >= 8 * fp[1] /\ blocks[bi].minRef < fp[2]}}
+         v7c == UNION {{<<n, "D7-match-reaches-back-across-full-flush-point-completed-with-more-input">>} : t \in
+                 {t \in acc.midFull : \E bi \in 1..Len(blocks) :
+                     /\ blocks[bi].type = "stored" /\ blocks[bi].outFrom = t /\ blocks[bi].outTo = t /\ ~blocks[bi].final
+                     /\ \E bj \in 1..Len(blocks) : blocks[bj].startBit >= blocks[bi].endBit /\ blocks[bj].minRef < t}}
          \* the first full-flush suffix is also decoded in isolation
          v7b == IF Len(acc.fullPoints) = 0 \/ u.tag # "Valid" THEN {}
                 ELSE LET fp == acc.fullPoints[1]
@@ -137,13 +150,13 @@ EndRules(s, acc) ==
          v8 == (IF \E bi \in 1..Len(blocks) : blocks[bi].maxDist > P2(wb) THEN {<<n, "D8-match-distance-exceeds-window">>} ELSE {})
                \cup (IF \E bi \in 1..Len(blocks) : blocks[bi].minRef < 0 - Len(dictUsed) THEN {<<n, "D8-match-before-start-of-data">>} ELSE {})
                \cup (IF u.tag = "Valid" /\ w = "zlib" /\ u.hdr.fields.info + 8 < wb THEN {<<n, "D8-zlib-CINFO-smaller-than-window">>} ELSE {})
-     IN [viol |-> acc.viol \cup v5 \cup v7 \cup v7b \cup v8,
+     IN [viol |-> acc.viol \cup v5 \cup v7 \cup v7b \cup v7c \cup v8,
          stats |-> [nblocks |-> Len(blocks), match |-> \E bi \in 1..Len(blocks) : blocks[bi].maxDist > 0,
                     types |-> [bi \in 1..Len(blocks) |-> blocks[bi].type],
                     dictref |-> \E bi \in 1..Len(blocks) : blocks[bi].minRef < 0]]
 
 JudgeStream(s) ==
-  LET a0 == [produced |-> <<>>, consumed |-> 0, given |-> 0, pending |-> 0, viol |-> {}, stall |-> 0, fullPoints |-> <<>>, ended |-> FALSE, flushJudged |-> 0, eosSeen |-> FALSE, dec |-> NoDec, buffered |-> 0, drift |-> {}, cov |-> {}]
+  LET a0 == [produced |-> <<>>, consumed |-> 0, given |-> 0, pending |-> 0, viol |-> {}, stall |-> 0, fullPoints |-> <<>>, midFull |-> {}, pendFull |-> {}, fullSince |-> FALSE, ended |-> FALSE, flushJudged |-> 0, eosSeen |-> FALSE, dec |-> NoDec, buffered |-> 0, drift |-> {}, cov |-> {}]
       a == FoldLeft(LAMBDA acc, k : CallRules(s, acc, k), a0, Range1(Len(s.calls)))
       e == EndRules(s, a)
       v13 == {<<s.wrong_state_accepted[i], "D13-dictionary-call-accepted-in-a-wrong-state">> : i \in 1..Len(s.wrong_state_accepted)}
